@@ -83,6 +83,20 @@ class C01(PropBase):
                 if rng.random() < 0.5:
                     steps = [['obs', [['s', s]]]] + steps
                 out.append(Case('seq', steps, 'history', {'s': s}))
+        # ... and after a caller assigned into the dictionary that .fields handed out: the next Sid built from the same string
+        # (plain and uri form) is typed from the string, not from what the caller did to that dictionary
+        for t in v.order:
+            for _ in range(8 * k):
+                s = v.sid(t, rng, search_p=rng.choice([0, 0, 0.5]))
+                n = natural(v, s)
+                if not n or any(ch in s for ch in ':?\n'):
+                    continue
+                keys = [kk for kk, _ in n[1]]
+                steps = [['obs', [['s', s]]], ['fields_mutate', [['s', s], rng.choice(keys + ['foo']), rng.choice(['zzz', '*', 'rig'])]],
+                         ['obs', [['s', s]]], ['obs', [['s', n[0] + ':' + s]]]]
+                if rng.random() < 0.5:
+                    steps = steps[1:]
+                out.append(Case('seq', steps, 'history', {'s': s}))
         if tier != 'quick':
             # exhaustive: every string of <= 4 segments over a 9-word alphabet, with and without prefixes
             v = gen.vocab_from_ctx(ctx)
